@@ -99,6 +99,7 @@ SEEDS = {
  "C05e": dict(property="C05", needs="shutdown(wait=False) with work pending, then a waited shutdown (explicit or end of a with block): the executor has forgotten its manager thread, the second call returns at once"),
  "C07e": dict(property="C07", needs="shutdown(wait=False) with a job pending + the worker leaving on idle timeout: the executor's queue references are cleared although the manager's re-spawn builds the new worker from them; the worker dies on None.get, pool broken"),
  "C10e": dict(property="C10", needs="thread A asks another max_workers while thread B asks other executor arguments: _resize now runs after the executor lock was released, A resizes (and returns) the instance B has just shut down"),
+ "C20e": dict(property="C20", needs="a worker terminated by a signal without a symbolic name (real-time signals 34..64) in a lifecycle: the exit-code formatter raises KeyError in the manager thread, which dies without reaping; each lifecycle leaves a worker, a feeder thread, pipes and semaphores"),
  "C20e": dict(property="C20", needs="a worker killed by a real-time signal (no signal.Signals member): the exit-code name lookup became a dict access under except ValueError, the manager dies composing the diagnostic and the lifecycle leaks workers, feeder thread, fds, semaphores"),
  "C20b": dict(property="C20", needs="kill-type lifecycle + worker with descendants one of which vanishes during the kill: kill_process_tree returns early, the worker is neither killed nor joined (child, fd, semaphore accumulate)"),
 }
